@@ -266,7 +266,7 @@ def run_property(prop, tier, only=None, write_evidence=True):
             if u.status == "undecided":
                 u.status = "failed-natively"
     for u in units:
-        if u.status in ("anchor", "out_of_reach", "crash", "vacuous"):
+        if u.status in ("anchor", "out_of_reach", "crash", "vacuous") :
             errors.append((u, "%s: %s %s" % (u.status, u.detail, ",".join(u.vacuous))))
         if u.status == "undecided":
             for ob in u.undecided:
@@ -293,7 +293,20 @@ def run_property(prop, tier, only=None, write_evidence=True):
             for ob in u.undecided:
                 undecided.append((u, ob))
         if u.kind == "bounded" and u.status == "failed":
-            pass
+            class _Ob(object):
+                pass
+            seen_msgs = set()
+            for v in getattr(u, "monitor_violations", []):
+                if v["message"] in seen_msgs:
+                    continue
+                seen_msgs.add(v["message"])
+                ob = _Ob()
+                ob.name = "monitor:" + v["message"][:100]
+                ob.full_name, ob.kind, ob.result, ob.backend, ob.seconds, ob.path = ob.name, "monitor", "violated", "cpython", 0.0, 0
+                payload = {"property": prop, "unit": u.name, "obligation": ob.name, "kind": "run-time contract monitor (bounded stand-in)",
+                           "repo": loader.REPO, "failing_history": v, "reproduced_natively": True,
+                           "how_to_replay": "python -m monitors.harness <config> <events> <seed> <monitors> with VERIF_REPO set"}
+                violations.append((u, ob, write_replay(prop, u, ob, payload), True))
 
     for u, ob, k in known_hits:
         print("KNOWN-FINDING: property=%s %s [%s]" % (prop, k["text"], obligation_key(u, ob)))
